@@ -363,7 +363,14 @@ func VerifC08Fault() {
 	faultAt := vInt(0, 5)
 	call := 0
 	faulted := ""
+	// excfault: a second fault inside a handler of the Exception state itself (1: ExceptionEnter, 2: ExceptionState)
+	excFault := vParam("excfault", 0)
+	excDone := false
 	s.faultHook = func(name string) bool {
+		if faulted != "" && !excDone && ((excFault == 1 && name == "ExceptionEnter") || (excFault == 2 && name == "ExceptionState")) {
+			excDone = true
+			return true
+		}
 		if call == faultAt && faulted == "" && !(len(name) >= 9 && (name[:9] == "Exception" || name[len(name)-9:] == "Exception")) {
 			call++
 			faulted = name
@@ -390,6 +397,19 @@ func VerifC08Fault() {
 	}
 	_, _, res := s.mutate()
 	vAssume(faulted != "")
+	if excFault > 0 {
+		vAssume(excDone)
+		vReach("excfault")
+		// the machine lives on: later mutations (with handlers) return
+		done := vCompletes(func() {
+			m.Remove1(StateException, nil)
+			m.Add1(s.names[0], nil)
+			m.Remove1(s.names[0], nil)
+		})
+		vKnown("c08-fault-in-exception-handler-kills-handler-loop", true)
+		vAssert("machine-not-wedged-after-exception-handler-fault", done && !s.wedged)
+		return
+	}
 	post := m.ActiveStates(nil)
 	postT := m.time(nil)
 	vReach("fault")
